@@ -7,7 +7,17 @@ CT = {  # ctype -> (bits, signed) ; None bits = float
  'bint': (32, True), 'double': (None, None), 'Py_ssize_t': (64, True)}
 PYT = {'object', 'dict', 'list', 'tuple', 'bytes'}
 STRUCTS = {}   # name -> [(field, ctype)]
+_CS = {}
+
+
 def csize(ct):
+    r = _CS.get(ct)
+    if r is None:
+        r = _CS[ct] = _csize(ct)
+    return r
+
+
+def _csize(ct):
     ct = ct.strip()
     if ct.endswith('*'): return 8
     if ct in STRUCTS: return sum(csize(t) for _, t in STRUCTS[ct])   # packed
